@@ -28,6 +28,31 @@ _native.install(REG) if not _native.NATIVE.cases else None
 NATIVE = _native.NATIVE
 NATIVE_BUDGET = {"quick": 40, "thorough": 600}
 
+EXPLANATION = (
+    "Value side of the expression-layer contracts: each operator method of Boolean/Rational/String/Set, each of the 21 "
+    "wrappers of _operator.py (verified as the *decorated* function: _auto_swap is executed symbolically) and the literal / "
+    "unary visitors return exactly the value the Specification's table prescribes over exact rationals (fractions.Fraction = "
+    "z3 Real), and raise UndefinedOperatorError / InvalidOperandError if and only if the table says so.  The wrappers are "
+    "verified for *arbitrary* operands by case split over the closed class world, which covers every ordered pair of "
+    "{Boolean, Rational, String, Set<Rational>, Set<String>, Set<Boolean>, serializable type}.")
+NOT_COVERED = [
+    "tokenisation, blanks and parentheses: that the tree handed to the visitors is the one the Specification grammar "
+    "prescribes (PEG semantics of parsimonious is assumed; the rule layering is checked structurally, level 'other')",
+    "_visit_binary_operator_chain as a left fold: bounded native check only (tuples of heterogeneous children are not modelled)",
+    "decoding of literal digits: bounded enumeration against the real grammar (int()/Fraction(str) are uninterpreted in the "
+    "proofs); escape table of _parse_string_literal: only its exception classes are proved, not the decoded text",
+    "min / max / count and the attribute operator; identifiers (unknown attributes/identifiers of the statement)",
+    "sets of sets / sets of types (precondition `domain`); non-integer exponents are specified through CPython's binary "
+    "floating point (uninterpreted fpow_* functions), as the code computes them - not as mathematical roots",
+    "bitwise | ^ & on integers are uninterpreted total functions of the two operands (operand order and integrality are "
+    "checked, the bit pattern is not); NFC normalisation is an uninterpreted function",
+]
+ASSUMPTIONS = [
+    "fractions.Fraction arithmetic is exact rational arithmetic with the CPython exceptions listed under "
+    "assumed_library_contracts; equality/hash of expression values is value equality (sets of canonical references)",
+    "Set element classes are Boolean, Rational or String (contract preconditions `domain`)",
+]
+
 # ------------------------------------------------------------------------------------------------ Specification tables
 # precedence, lowest first: (chain rule, operand rule, operator group, {token: operator function of _expression})
 LEVELS = [
